@@ -73,6 +73,7 @@ type Exec struct {
 	funcs           map[string]bool
 	env             *Env
 	boundReported   bool
+	randomDraws     [][]*Term
 	pathStart       time.Time
 	frames          []*Frame
 	stack           []*ssa.Function
